@@ -26,7 +26,7 @@ ASSUMPTIONS = [
 ]
 RANGES = [(1, 1), (0.5, 2), (-2, -0.5), (-1, 1), (0, 0), (-3, -3),
           (1e-320, 1e-310), (-3e17, -1e17), (1e-300, 2e-300)]       # subnormal, huge and tiny weights are weights too
-PTYPES = [None, "int8", "uint8", None, "int16", None, "uint16"]     # p as a (narrow) numpy integer
+PTYPES = [None, "int32", "int64", None, "intp", None, "int64"]     # p as a numpy integer (32 bits or more, signed)
 
 
 def _valid(W, p, w_min, w_max, what):
